@@ -1,6 +1,7 @@
 package main
 
 import (
+	"time"
 	pongo2 "github.com/flosch/pongo2/v6"
 	"fmt"
 	"math"
@@ -492,8 +493,35 @@ func c07Membership(cfg Config, res *Result) {
 		})
 }
 
+type c07Level int
+
+func (l c07Level) String() string { return [...]string{"debug", "info", "warn", "error"}[int(l)%4] }
+
+type c07Celsius float64
+
+func (c c07Celsius) String() string { return fmt.Sprintf("%.1f C", float64(c)) }
+
+// c07NamedNumbers: a named integer / float type with a String method (an enum, a duration) is an
+// integer / a float in arithmetic and comparisons, whatever it prints as
+func c07NamedNumbers(cfg Config, res *Result) {
+	lvl, timeout, temp := c07Level(2), 10*time.Nanosecond, c07Celsius(21.0)
+	ctx := pongo2.Context{"lvl": lvl, "plvl": &lvl, "timeout": timeout, "temp": temp}
+	for _, c := range []struct{ src, want string }{
+		{"{{ lvl + 1 }}", "3"}, {"{{ 1 + lvl }}", "3"}, {"{{ lvl - 1 }}", "1"}, {"{{ lvl * 2 + 1 }}", "5"}, {"{{ plvl + 1 }}", "3"},
+		{"{{ timeout + 5 }}", "15"}, {"{{ timeout * 2 }}", "20"}, {"{{ temp + 0.5 }}", "21.500000"}, {"{{ temp * 2 }}", "42.000000"},
+		{"{% if lvl + 1 == 3 %}y{% else %}n{% endif %}", "y"}, {"{% if lvl > 1 and timeout < 11 %}y{% else %}n{% endif %}", "y"}, {"{{ lvl % 2 }}", "0"},
+	} {
+		res.Cases++
+		r := implRender(c.src, ctx)
+		if r.Panicked || r.Err != "" || r.Out != c.want {
+			res.add(Finding{Kind: "oracle", Proj: "semantics", Sig: "c07-named-number", Case: c.src + " with lvl=c07Level(2), timeout=10ns, temp=c07Celsius(21)", Impl: r.String(), Model: "ok " + hx(c.want)})
+		}
+	}
+}
+
 func suiteC07(cfg Config, res *Result) {
 	defer c07Membership(cfg, res)
+	defer c07NamedNumbers(cfg, res)
 	res.Rule = "expression trees over the leaves {0,1,2,7,-3,2.5,\"a\",\"\",true,false,x:int,y:float,s:string} and 15 binary + 2 unary operators: all trees of depth <= 2 (exhaustive), every ordered pair of binary operators in both groupings over numeric leaf triples, plus random trees up to depth 5 (quick) / 8 (thorough); each tree inside the uncontroversial fragment (decided by the independent evaluator) is printed with minimal parentheses, random spacing and operator spellings, rendered through {{ e }} and {% if e %}, and compared with the independent evaluator and with the Lean model; non-trivial = >= 2 operators; distinct by printed source"
 	rng := NewRNG(cfg.Seed)
 	var trees []*xt
@@ -590,6 +618,16 @@ func suiteC07(cfg Config, res *Result) {
 		lbl := "ops=" + fmt.Sprint(min(countOps(t), 4))
 		cases = append(cases, ProgCase{Src: full, Ctx: &c, Label: lbl})
 		wants = append(wants, want)
+		if len(cases)%9 == 0 && countOps(t) >= 1 {
+			// the operands reach an included template as with-pairs, or as variables a tag bound in the includer
+			c2 := ctx
+			entry := rng.Pick([]string{`{% include "e.tpl" with x=x y=y s=s %}`, `{% set x = x %}{% with y=y %}{% for s in [s] %}{% include "e.tpl" %}{% endfor %}{% endwith %}`,
+				`{% include "e.tpl" with x=x y=y s=s only %}`, `{% macro mm(x, y, s) %}{% include "e.tpl" %}{% endmacro %}{{ mm(x, y, s) }}`})
+			if !strings.Contains(entry, "macro") || want != "err exec" { // an error inside a macro call is reported alike
+				cases = append(cases, ProgCase{Src: entry, Ctx: &c2, Label: lbl, Loaders: []map[string]string{{"e.tpl": full}}})
+				wants = append(wants, want)
+			}
+		}
 	}
 	// an expression is evaluated anew at every execution: one compiled template, three contexts in turn
 	{
@@ -679,12 +717,12 @@ func suiteC07(cfg Config, res *Result) {
 	res.hist(fmt.Sprintf("outside-fragment=%d", outside))
 	idx := map[string]int{}
 	for i, c := range cases {
-		idx[c.Src] = i
+		idx[c.Req()] = i
 	}
 	runProgCases(cfg, res, cases, "c07", func(c ProgCase, o ImplOutcome) bool {
 		return strings.Count(c.Label, "ops=0") == 0 && strings.Count(c.Label, "ops=1") == 0
 	}, func(c ProgCase, o ImplOutcome) *Finding {
-		want := wants[idx[c.Src]]
+		want := wants[idx[c.Req()]]
 		got := o.Canon()
 		if got != want {
 			return &Finding{Kind: "oracle", Proj: "semantics", Sig: "c07-semantics", Case: c.String(), Impl: got + " " + o.Msg, Model: "independent evaluator: " + want}
